@@ -4,9 +4,9 @@
 
 package engine
 
-// representation facts every session built by NewSession/ReadSession satisfies: environment and
+// representation facts every session built by NewSession/ReadSession satisfies: environment, engine and
 // assets are set, the assets object is the engine's own with all asset groups initialised
-//@ pred SessRep(s *session) bool := s != nil && !isnil(s.env) && !isnil(s.assets) && s.assets.(*sessionAssets) != nil && s.assets.(*sessionAssets).locations != nil
+//@ pred SessRep(s *session) bool := s != nil && !isnil(s.env) && !isnil(s.assets) && s.assets.(*sessionAssets) != nil && s.assets.(*sessionAssets).locations != nil && !isnil(s.engine) && EngRep(s.engine)
 
 // engine built by the Builder: options present (limits are checked non-negative where a callee needs it)
 //@ pred EngRep(eng flows.Engine) bool := !isnil(eng) && eng.(*engine) != nil && eng.(*engine).options != nil
@@ -45,9 +45,26 @@ package engine
 // the state a caller persists (session JSON) is untouched: session, run, step and contact fields (transient fields excluded)
 //@ pred persistedUntouched() bool := unchanged("session::uuid", "session::type_", "session::env", "session::trigger", "session::contact", "session::runs", "session::status", "session::input", "runs.run::uuid", "runs.run::flowRef", "runs.run::flow", "runs.run::parent", "runs.run::results", "runs.run::path", "runs.run::events", "runs.run::status", "runs.run::createdOn", "runs.run::modifiedOn", "runs.run::exitedOn", "runs.step::*", "flows.Contact::*", "flows.GroupList::groups", "elems[flows.Run]", "elems[flows.Step]", "elems[flows.Event]")
 
+// C05 / C10: the resume counter counts at least every msg_wait and dial_wait event of every run
+//@ pred isWaitEvt(e flows.Event) bool := e.Type() == "msg_wait" || e.Type() == "dial_wait"
+// number of wait events among the first n events / in the first m runs (recursive definitions as axioms)
+//@ pure waitsIn(evs []flows.Event, n int) int
+//@   reads elems[flows.Event], events.BaseEvent::Type_
+//@ pure waitsUpTo(s *session, m int) int
+//@   reads session::runs, elems[flows.Run], runs.run::events, elems[flows.Event], events.BaseEvent::Type_
+//@ axiom waitsIn_def: forall evs []flows.Event, n int {waitsIn(evs, n)} :: (n <= 0 ==> waitsIn(evs, n) == 0) && (n > 0 ==> waitsIn(evs, n) == waitsIn(evs, n - 1) + (isWaitEvt(evs[n - 1]) ? 1 : 0))
+//@ axiom waitsUpTo_def: forall s *session, m int {waitsUpTo(s, m)} :: (m <= 0 ==> waitsUpTo(s, m) == 0) && (m > 0 ==> waitsUpTo(s, m) == waitsUpTo(s, m - 1) + waitsIn(s.runs[m - 1].(*runs.run).events, len(s.runs[m - 1].(*runs.run).events)))
+
 //@ func (s *session) countWaits
 //@   pure
+//@   uses waitsIn_def, waitsUpTo_def
 //@   reads session::runs, elems[flows.Run], runs.run::events, elems[flows.Event]
+//@   requires runsOK(s)
+//@   ensures [counts_every_wait] result >= waitsUpTo(s, len(s.runs))
+//@ loop 1
+//@   invariant waits >= waitsUpTo(s, $i + 1)
+//@ loop 2
+//@   invariant waits >= waitsUpTo(s, $i1 + 1) + waitsIn(r.(*runs.run).events, $i2 + 1)
 
 //@ func (s *session) waitingRun
 //@   pure
@@ -87,7 +104,7 @@ package engine
 
 // C05: visiting a node creates exactly one step
 //@ func (s *session) visitNode
-//@   havocs pickNodeExit, InitializeRun, ensureQueryBasedGroups
+//@   havocs pickNodeExit, InitializeRun, ensureQueryBasedGroups, Begin
 //@   requires s != nil && sprint != nil
 //@   assigns *, ghost.sprintSteps
 //@   ensures [one_step] ghost.sprintSteps == old(ghost.sprintSteps) + 1
